@@ -11,8 +11,10 @@ def _call(arg):
     return _fn(arg)
 
 
-def pmap(fn, items, jobs=None, chunksize=1):
-    """ordered parallel map; `fn` must be a module-level or closure callable (fork => no pickling of fn)."""
+def pmap(fn, items, jobs=None, chunksize=1, fresh=False):
+    """ordered parallel map; `fn` must be a module-level or closure callable (fork => no pickling of fn).
+    fresh=True runs every item in a newly forked process (clean module-level state of the library: whatever an item
+    observes depends only on its own history, so a failing item can be re-run deterministically)."""
     global _fn
     items = list(items)
     jobs = jobs or NPROC
@@ -20,8 +22,8 @@ def pmap(fn, items, jobs=None, chunksize=1):
         return [fn(x) for x in items]
     _fn = fn
     ctx = mp.get_context('fork')
-    with ctx.Pool(min(jobs, len(items))) as pool:
-        return pool.map(_call, items, chunksize)
+    with ctx.Pool(min(jobs, len(items)), maxtasksperchild=1 if fresh else None) as pool:
+        return pool.map(_call, items, 1 if fresh else chunksize)
 
 
 def shards(seq, n=None):
